@@ -235,6 +235,9 @@ pub fn run(run: &Run) {
         blocks.par_iter().for_each(|blk| {
             let mut n = 0u64;
             for x in blk * BLOCK..(blk + 1) * BLOCK {
+                if run.reports() > 200 {
+                    break;
+                }
                 let x = x as u32;
                 for m in u32_messages(x) {
                     n += 2;
